@@ -331,11 +331,12 @@ class Engine(NumericMixin, EvalMixin, ExecMixin, CallMixin, BuiltinMixin):
         ps = e.fork()
         ps.spec = True
         # parameters keep their entry binding in postconditions (Python rebinding of a parameter is local)
+        region_locals = set(spec.locals) if spec.region else set()     # a region's locals are plain variables: final binding
         for k, v in e.old[0].items():
-            if k != 'np_errstate':
+            if k != 'np_errstate' and k not in region_locals:
                 ps.env[k] = v
         for k, v in e.env.items():
-            if k not in ps.env or k == 'np_errstate':
+            if k not in ps.env or k == 'np_errstate' or k in region_locals:
                 ps.env[k] = v
         if spec.returns is not None:
             val = self.coerce_to(ps, val, spec.returns)
